@@ -118,7 +118,7 @@ class Actor:
 
     # protocol helpers -----------------------------------------------------------
     def handshake(self, proto="v2v1", req_id=0, logger=False, allow_multiple=False,
-                  name: bytes = b"", pid=1234, daemon=False, hdr_src=None):
+                  name: bytes = b"", pid=1234, daemon=False, hdr_src=None, logger_status=None):
         # hdr_src: what a CONNECT_V2 sender puts into the header's source field (the request itself is in the
         # payload); None = the requested id, as pyrtma.Client does
         self.proto = proto
@@ -129,12 +129,14 @@ class Actor:
         self.mname = name
         self.pid = pid
         self.handshake_sent = True
+        # logger_status: the raw value of the 16-bit field (only 1 means "logger"); None = 0 / 1 as logger says
+        lst = int(logger) if logger_status is None else logger_status
         if proto in ("v2v1", "v2"):
             self.send(C.MT_CONNECT_V2,
-                      C.pack_connect_v2(int(logger), int(daemon), int(allow_multiple), req_id, pid,
+                      C.pack_connect_v2(lst, int(daemon), int(allow_multiple), req_id, pid,
                                         name), src=req_id if hdr_src is None else hdr_src)
         if proto in ("v2v1", "v1"):
-            self.send(C.MT_CONNECT, C.pack_connect(int(logger), int(daemon)),
+            self.send(C.MT_CONNECT, C.pack_connect(lst, int(daemon)),
                       src=req_id if (hdr_src is None or proto == "v1") else hdr_src)
         if proto == "v1":
             self.unique = True
